@@ -2,7 +2,7 @@
    other C14 theorems checkable).  Only statements + `exact`. *)
 From Coq Require Import ZArith List Bool.
 From PyRTL Require Import Base.PyZ Front.SliceC14 Front.Mux Front.BarrelC14 Front.Struct
-     Front.MuxRulesTie Gen.MuxRules.
+     Front.Bitfield Front.MuxRulesTie Front.BitfieldTie Conv.ConvBase Gen.Conv Gen.MuxRules.
 Import ListNotations. Open Scope Z_scope.
 
 (* ================= translator tie =================
@@ -40,3 +40,12 @@ Theorem C14_rules_tie :
      negb (Nat.eqb (Nat.modulo (length w) size) 0) = partition_bad (Z.of_nat (length w)) (Z.of_nat size)).
 Proof. exact rules_tie. Qed.
 Print Assumptions C14_rules_tie.
+
+(* Python-int new values of bitfield_update(_set): the model's conversion is exactly the regenerated
+   truncation  newvalue &= (1 << len(idxs_middle)) - 1  (only when truncating) followed by the regenerated
+   helperfuncs._convert_int(val, bitwidth=field width, signed=False) *)
+Theorem C14_int_newvalue_tie : forall v tr bw, (1 <= bw)%nat ->
+  conv_int v tr bw =
+  as_bits bw (convert_int (if tr then bfu_trunc_int v (Z.of_nat bw) else v) (Some (Z.of_nat bw)) false).
+Proof. exact conv_int_tie. Qed.
+Print Assumptions C14_int_newvalue_tie.
